@@ -120,6 +120,42 @@ def callers(rnd):
                             for a in t.anc:
                                 if a in pos and pos[a] > pos[t]:
                                     return n_runs, dict(problem='%r is ordered before its ancestor %r (result %r)' % (t, a, res), bases={x.name: [b.name for b in x.bases] for x in tys}, input=[x.name for x in objs])
+    # cross-reference ordering: the REAL delta.sort_by_cross_refs on objects that only know who refers to them; every small reference graph (<= 3 objects, self-references
+    # included), handed over as a list and as a single-pass iterator (what ChainedSchema.get_objects() yields): referrers come after what they refer to, each object once,
+    # CycleError exactly when the references are cyclic (a self-reference is a cycle)
+    class Ob:
+        def __init__(self, name): self.name = name
+        def is_parent_ref(self, schema, ref): return False
+        def __repr__(self): return self.name
+    class Sch:
+        def __init__(self, refs): self.refs = refs
+        def get_referrers(self, x): return frozenset(self.refs.get(x, ()))
+    from edb.common import topological as T2
+    for n in range(1, 4):
+        pairs = [(a, b) for a in range(n) for b in range(n)]
+        for bits in itertools.product([0, 1], repeat=len(pairs)):
+            obs = [Ob('o%d' % i) for i in range(n)]
+            refs = {}      # refs[x] = objects that refer to x (they must come after x)
+            for (a, b), on in zip(pairs, bits):
+                if on: refs.setdefault(obs[b], set()).add(obs[a])      # a refers to b
+            edges = [(a, b) for (a, b), on in zip(pairs, bits) if on]
+            cyclic = has_cycle(n, edges)
+            for mode in ('list', 'iterator'):
+                n_runs += 1
+                inp = list(obs) if mode == 'list' else iter(list(obs))
+                try: res = list(sd.sort_by_cross_refs(Sch(refs), inp)); raised = False
+                except T2.CycleError: raised = True
+                except Exception as e: return n_runs, dict(problem='sort_by_cross_refs raised %r' % (e,), references=[(obs[a].name, obs[b].name) for a, b in edges], input=mode)
+                if raised != cyclic:
+                    return n_runs, dict(problem='references %s, input as %s: CycleError %s although the references are %s' % (
+                        [(obs[a].name, obs[b].name) for a, b in edges], mode, 'raised' if raised else 'not raised', 'cyclic' if cyclic else 'acyclic'))
+                if not raised:
+                    if sorted(map(repr, res)) != sorted(map(repr, obs)): return n_runs, dict(problem='result %r is not a permutation of the input' % (res,), input=mode)
+                    pos = {o: i for i, o in enumerate(res)}
+                    for a, b in edges:
+                        # graph[x].deps = referrers of x: the sorter places x AFTER its deps, i.e. after the objects referring to it
+                        if pos[obs[b]] < pos[obs[a]] and a != b:
+                            return n_runs, dict(problem='%r is placed before %r, which refers to it (result %r)' % (obs[b], obs[a], res), input=mode)
     return n_runs, None
 
 def main():
